@@ -75,3 +75,51 @@ SPECS["C02"] = {
          "limits": {"quick": {"timeout": "900s"}, "thorough": {"timeout": "3000s"}}},
     ],
 }
+
+
+MATH_NOTE = ("math mode: Go integers are SMT Ints with conservative intervals; an operation whose interval leaves the Go type's range gets an explicit "
+             "mod 2^w wrap, so integer semantics stay exact; float64 is Real (exact arithmetic: rounding ignored, NaN/Inf excluded)")
+
+SPECS["C06"] = {
+    "explanation": "The real MetricMap.Split / Bucket / hash/adler32 are executed on a map of 1..4 series with symbolic names and tag keys (every byte "
+                   "value, empty strings allowed), a symbolic metric type and a symbolic shard count. Asserted: one output map per shard; each input "
+                   "series occurs in exactly one of them with an unchanged payload; the sizes add up (no foreign series); and the shard index of a series "
+                   "is the same in a second, different batch that shares only that series (determinism: the index is a function of the series identity "
+                   "and the shard count only). The hash itself is not pinned to adler32.",
+    "bounds": {"quick": "1..3 series, names <= 1 byte, tag keys <= 1 byte, shard counts 1..3; mixed types for 2 series",
+               "thorough": "1..4 series, names <= 2 bytes, tag keys <= 2 bytes, shard counts 1..6; mixed types for 3 series"},
+    "outside": ["maps with more than 4 series (the per-series argument does not depend on the batch size)", "queue hand-off to the worker of the same index (C01)"],
+    "assumptions": STUBS_COMMON + [MATH_NOTE],
+    "jobs": [
+        {"pkg": ".", "harness": "root", "mode": "math",
+         "entries": {"quick": ["VerifC06_Split_1_1_0_3", "VerifC06_Split_2_1_1_3", "VerifC06_Split_3_1_1_3", "VerifC06_Split_2_0_0_2", "VerifC06_SplitMixed_2_1_1_3", "VerifC06_Twin"],
+                     "thorough": ["VerifC06_Split_1_1_0_3", "VerifC06_Split_2_1_1_3", "VerifC06_Split_2_2_1_4", "VerifC06_Split_3_1_1_3", "VerifC06_Split_3_2_2_6",
+                                  "VerifC06_Split_2_0_0_2", "VerifC06_Split_4_1_1_4", "VerifC06_SplitMixed_2_1_1_3", "VerifC06_SplitMixed_3_1_0_2", "VerifC06_Twin"]},
+         "reach": {"*": ["split", "determinism"]},
+         "twin": {"VerifC06_Twin": True},
+         "limits": {"quick": {"timeout": "600s"}, "thorough": {"timeout": "3000s"}}},
+    ],
+}
+
+SPECS["C07"] = {
+    "explanation": "Per metric type, three maps A, B, C over a universe of one name and one or two tag keys (presence of each series symbolic; counter values, "
+                   "timestamps, gauge values, 0..2 timer values with sampled counts, set membership of two members all symbolic) are merged with the real "
+                   "MetricMap.Merge in all 6 permutations x both bracketings ((X+Y)+Z and X+(Y+Z)) and with MergeMaps; every one of the 13 results must satisfy "
+                   "the order-free oracle: counter = sum, timer values = multiset union (compared after a sorting network, no data-dependent control flow) "
+                   "with sampled counts added, set = union, every series keeps the newest timestamp, and a gauge ends with the value of a datapoint carrying "
+                   "the newest timestamp (membership, because ties may legitimately resolve either way).",
+    "bounds": {"quick": "3 maps; counters/gauges: 2 tag keys; timers: 1 tag key, <= 2 values per input; sets: 1 tag key, 2 possible members",
+               "thorough": "same plus timers and sets over 2 tag keys (budgeted)"},
+    "outside": ["float64 rounding: sums are compared over the reals (float addition is not associative, so a bit-exact claim would be false of any implementation)",
+                "the consolidator's channel hand-off and the cloud/tag handlers' use of the same merge functions (C10, C11 cover their own merges)",
+                "more than three maps (grouping of more follows by induction from associativity + commutativity of three)"],
+    "assumptions": STUBS_COMMON + [MATH_NOTE, "counter values and timestamps are declared in [-2^40, 2^40] / [0, 2^40] so that no wrap term is needed"],
+    "jobs": [
+        {"pkg": ".", "harness": "root", "mode": "math",
+         "entries": {"quick": ["VerifC07_Counter", "VerifC07_Gauge", "VerifC07_Timer1", "VerifC07_Timer2", "VerifC07_Set", "VerifC07_Twin"],
+                     "thorough": ["VerifC07_Counter", "VerifC07_Gauge", "VerifC07_Timer1", "VerifC07_Timer2", "VerifC07_Set", "VerifC07_Twin"]},
+         "reach": {"*": ["merged"]},
+         "twin": {"VerifC07_Twin": True},
+         "limits": {"quick": {"timeout": "600s"}, "thorough": {"timeout": "3000s"}}},
+    ],
+}
